@@ -5,6 +5,7 @@ CONSTANTS
   ExitOnFlag = FALSE
   LearnOnTerminal = FALSE
   DrainOnEnd = FALSE
+  RewardTotal = TRUE
 SPECIFICATION Spec
 INVARIANT NoPhantomLearn
 INVARIANT Attribution
